@@ -369,13 +369,66 @@ def fixture_scenario():
     return None
 
 
+def frame_conformance(rnd, rounds=120):
+    """CSVTracksBuilder.load_source on concrete node tables: through real pandas and through the cell-wise
+    DataFrame model of harness/importer.py; the resulting in-memory GEFF (ids, edges, property arrays) must agree"""
+    import warnings
+
+    import numpy as np
+    import pandas as pd
+
+    from harness import importer
+    from funtracks.import_export.csv._import import CSVTracksBuilder
+
+    n = 0
+    for _ in range(rounds):
+        rows = rnd.randint(1, 5)
+        strings = rnd.random() < 0.4
+        pool = ["a", "b", "c", "d", "e", "zz"] if strings else [0, 1, 2, 5, 9, 11]
+        ids = [rnd.choice(pool[:-1]) for _ in range(rows)] if rnd.random() < 0.2 else rnd.sample(pool[:-1], rows)
+        none_codes = [float("nan"), ""] if strings else [float("nan"), -1]
+        parents = [rnd.choice(ids + [pool[-1]] + none_codes + none_codes) for _ in range(rows)]
+        data = {"id": ids, "parent_id": parents, "t": [rnd.randint(0, 5) for _ in range(rows)],
+                "y": [rnd.random() * 10 for _ in range(rows)], "x": [rnd.random() * 10 for _ in range(rows)],
+                "c": [rnd.randint(-3, 3) for _ in range(rows)]}
+        idc, pc = rnd.choice([("id", "parent_id"), ("node", "mother")])
+        data = {({"id": idc, "parent_id": pc}.get(k, k)): v for k, v in data.items()}
+        nm = {"id": idc, "parent_id": pc, "time": "t", "pos": rnd.choice([["y", "x"], ["x", "y"]]), "c": "c"}
+        out = []
+        for model in (False, True):
+            b = CSVTracksBuilder()
+            try:
+                with warnings.catch_warnings():
+                    warnings.simplefilter("ignore")
+                    if model:
+                        importer.install_csv()
+                        src = importer._Frame({k: [importer.NA if (isinstance(v, float) and v != v) else v for v in vs]
+                                               for k, vs in data.items()})
+                    else:
+                        src = pd.DataFrame(data)
+                    try:
+                        b.load_source(src, dict(nm), None)
+                    finally:
+                        if model:
+                            importer.remove_csv()
+                g = b.in_memory_geff
+                out.append(("ok", np.asarray(g["node_ids"]).tolist(), np.asarray(g["edge_ids"]).tolist(),
+                            {k: np.asarray(v["values"]).tolist() for k, v in sorted(g["node_props"].items())}, b.ndim))
+            except Exception as e:  # noqa: BLE001
+                out.append(("raised", type(e).__name__))
+        n += 1
+        if out[0] != out[1]:
+            return n, f"table {data} map {nm}: pandas -> {out[0]}, model -> {out[1]}"
+    return n, None
+
+
 def main():
     rnd = random.Random(20261001)
     rt.set_cur(rt.Ctx())
     total = 0
     try:
         for name, f in (("graph", graph_conformance), ("array", arr_conformance), ("lookups", maps_conformance),
-                        ("stubs", stubs_conformance)):
+                        ("stubs", stubs_conformance), ("dataframe model", frame_conformance)):
             n, err = f(rnd)
             total += n
             print(f"selftest {name}: {n} comparisons" + (f" FAILED: {err}" if err else " ok"))
